@@ -195,8 +195,12 @@ SPEC = {
         'must agree on every case); jiff Timestamp range constants',
         'C18: model domain is ASCII date strings',
     ],
-    'partial_note': 'calendar arithmetic (instant <-> civil fields) and the strftime/format-description engines are third-party: '
-                    'modelled per directive and sampled, not verified; theorems are over civil fields + offset',
+    'partial_note': 'calendar arithmetic inside the back ends (instant <-> civil fields, conversion to Local / UTC) and the three '
+                    'strftime / format-description engines are third-party code: modelled per directive for the directives lopdf '
+                    'uses and sampled by the correspondence runs, not verified; the theorems are over civil fields + offset (all '
+                    'valid field tuples of years 1-9999, all 2879 minute offsets) and the model\'s own instant function is proved '
+                    'equal to the specification\'s day counting; jiff cannot hold instants after 9999-12-30T22:00:00Z (domain '
+                    'restriction holds b f off, vacuous up to year 9998)',
 }
 
 
@@ -205,8 +209,26 @@ def run(ctx):
 
 
 MANIFEST = {
-    'level_text': 'Machine-checked proof (Coq) over the model of src/datetime.rs.',
-    'level_note': 'see notes/C18.md',
-    'technique': 'Coq proof (decimal-padding lemmas + exhaustive offset sweep) + differential correspondence on the real crates',
+    'level_text': 'Machine-checked proof (Coq) over the model of src/datetime.rs whose format strings, parse-pattern cascades, '
+                  'convert_utc_offset byte pair and datetime_string strip set are regenerated from the source on every run: for '
+                  'every valid civil field tuple of years 0001-9999 and every offset -23:59..+23:59 the chrono, jiff and time '
+                  'conversions print the same bytes, equal to the specification form D:YYYYMMDDHHmmSS+HH\'mm\' (C18_fmt_agree; '
+                  'the Z form for the UTC types, C18_fmt_agree_utc); as_datetime + try_into of every back end gives back the same '
+                  'fields and offset (C18_parse_fmt), for all nine ordered pairs of back ends (C18_cross_pairs, '
+                  'C18_cross_pairs_utc); every form of ISO 32000-1 7.9.4 named by the property - full, Z, minute precision, date '
+                  'only - is read by every back end as the value it denotes (C18_spec_forms) with the instant the specification '
+                  'assigns to it (C18_same_instant); the pinned single-pattern time parser is refuted (C18_time_v0_refuted, fixed '
+                  'by /repo 86e28c7). Tied to the real crates by differential runs: all 2879 offsets at a fixed instant, edge and '
+                  'sampled instants over years 1-9999, every ordered pair, the five textual forms, malformed strings.',
+    'level_note': 'Partial in one respect: the per-directive behaviour of chrono 0.4.45 / jiff 0.2.37 / time 0.3.55 (printing and '
+                  'scanning one directive, field resolution) and their instant <-> civil-field arithmetic are third-party code, '
+                  'modelled by hand from their sources and tied by correspondence only (sampled, not verified). Domain restriction: '
+                  'jiff\'s Zoned cannot represent instants after 9999-12-30T22:00:00Z (hypothesis holds b f off; proved vacuous up '
+                  'to year 9998, witness C18_example_jiff_limit). Offsets by an exhaustive vm_compute sweep with the bound '
+                  '-1439..1439 in the statement, field values by decimal-digit arithmetic (unbounded over the valid range). '
+                  'Trusted: Coq kernel; translator part DateFmt (anchored regexes, fails loudly); extraction/OCaml driver; Rust '
+                  'harness (TZ-per-thread trick for chrono Local). No axioms (Print Assumptions: closed). See notes/C18.md.',
+    'technique': 'Coq proof (decimal-digit lemmas per directive and back end, exhaustive offset sweeps, compiled-pattern cascades, '
+                 'calendar sweep for the instant) + differential correspondence on the real crates',
     'design_ref': 'DESIGN.md 6 C18',
 }
